@@ -461,6 +461,8 @@ def run(ctx):
 
     # --- B. generated code
     generated_code_half(ctx, cov, assumptions)
+    from props import gx_part
+    cov["generator_exploration"] = gx_part.run_part(ctx, "C20")     # widened program universe through the sanitised native pipeline
 
     assumptions += [
         "dyn_array histories are generated for one representative kind per contract class (int for int/u8/float/bool/string/array, struct) "
